@@ -430,3 +430,38 @@ func vh_C14_field_tag_Q() {
 	symxCover("C14.field-tag.ended")
 	symxAssert((err30 == nil) == (err31 == nil), "C14.field-tag.both-emitters-agree-on-acceptance")
 }
+
+// C07: `required` lists exactly the fields validated as required - a conditional rule (required_if, required_without,
+// ..) or the word inside another rule's value does not make a field required
+func vh_C07_required_list_Q() {
+	rules := []string{"", "required", "omitempty,required", "required_without=F1", "required_if=F0 x", "oneof=required optional", "min=1,required,max=9", "excluded_unless=F0 required"}
+	want := []bool{false, true, true, false, false, false, true, false}
+	r0, r1 := symxChoice("rule0", len(rules)), symxChoice("rule1", len(rules))
+	tag := func(r string) string {
+		if r == "" {
+			return `json:"x"`
+		}
+		return `validate:"` + r + `"`
+	}
+	models := &definitions.Models{Structs: []definitions.StructMetadata{{Name: "M", Fields: []definitions.FieldMetadata{
+		{Name: "F0", Type: "string", Tag: tag(rules[r0])}, {Name: "F1", Type: "int", Tag: tag(rules[r1])}}}}}
+	doc30, doc31 := vhNewDoc30(), vhNewDoc31()
+	symxAssert(swagen30.GenerateModelsSpec(doc30, models) == nil && swagen31.GenerateModelsSpec(doc31, models) == nil, "C07.required-list.no-error")
+	var wantReq []string
+	if want[r0] {
+		if rules[r0] == "" {
+			wantReq = append(wantReq, "x")
+		} else {
+			wantReq = append(wantReq, "F0")
+		}
+	}
+	if want[r1] {
+		wantReq = append(wantReq, "F1")
+	}
+	p31, _ := doc31.Components.Schemas.Get("M")
+	for vi, v := range []vhSchemaView{vhView30(doc30.Components.Schemas["M"]), vhView31(p31)} {
+		ver := []string{"30", "31"}[vi]
+		symxCover("C07.required-list.compared")
+		symxAssert(vhSameStrings(vhSortStrings(v.required), vhSortStrings(wantReq)), "C07."+ver+".required-lists-exactly-the-fields-validated-as-required")
+	}
+}
